@@ -1,9 +1,11 @@
 import Genq.Props.C02
 open Genq.Collect
 open Genq.Codec
+open Genq
 #print axioms C02_fragmentMatches_is_DoesFragmentTypeApply
 #print axioms C02_struct_fields_are_collectFields
 #print axioms C02_nested_condition_witness
 #print axioms C02_every_carrier_decodes_its_key
 #print axioms C02_lookup_exact
 #print axioms C02_fold_twin_witness
+#print axioms C02_codec_template_tie
